@@ -4,12 +4,21 @@ use raqote::*;
 use serde_json::{json, Value};
 
 pub fn build_path(loops: &Value, closed: &Value, rule: &str, den: f32) -> Path {
+    build_path_cont(loops, closed, &Value::Null, rule, den)
+}
+
+/// `nomove[i]`: loop i continues the previous (closed) subpath's cursor - its first vertex is that subpath's
+/// starting point, where Close left the current point, and is not emitted; the others are LineTos
+pub fn build_path_cont(loops: &Value, closed: &Value, nomove: &Value, rule: &str, den: f32) -> Path {
     let mut pb = PathBuilder::new();
     for (li, l) in loops.as_array().unwrap().iter().enumerate() {
         let pts = l.as_array().unwrap();
         for (i, p) in pts.iter().enumerate() {
             let x = num(&p[0]) / den;
             let y = num(&p[1]) / den;
+            if i == 0 && nomove.get(li).and_then(|b| b.as_bool()).unwrap_or(false) {
+                continue;
+            }
             if i == 0 {
                 pb.move_to(x, y);
             } else {
@@ -31,7 +40,7 @@ pub fn run(sc: &Value) -> Value {
     let rule = sc["rule"].as_str().unwrap_or("NonZero");
     let aa = sc["aa"].as_bool().unwrap_or(true);
     let route = sc["route"].as_str().unwrap_or("fill");
-    let path = build_path(&sc["loops"], &sc["closed"], rule, 4.0);
+    let path = build_path_cont(&sc["loops"], &sc["closed"], &sc["nomove"], rule, 4.0);
     let mut dt = DrawTarget::new(w, h);
     let white = Source::Solid(SolidSource { r: 255, g: 255, b: 255, a: 255 });
     let opts = DrawOptions {
@@ -66,9 +75,10 @@ pub fn drive(seed: u64, n: usize) -> Vec<Value> {
         let w = if large { rng.range(20, 40) } else { rng.range(1, if tall { 4 } else { 6 }) };
         let h = if large { rng.range(17, 33) } else { rng.range(1, if tall { 4 } else { 6 }) };
         let nloops = rng.range(1, 3);
-        let mut loops = Vec::new();
-        let mut closed = Vec::new();
-        for _ in 0..nloops {
+        let mut loops: Vec<Value> = Vec::new();
+        let mut closed: Vec<bool> = Vec::new();
+        let mut nomove = Vec::new();
+        for li in 0..nloops as usize {
             let nv = rng.range(3, if tall { 4 } else { 7 });
             let mut pts = Vec::new();
             for _ in 0..nv {
@@ -79,12 +89,19 @@ pub fn drive(seed: u64, n: usize) -> Vec<Value> {
                 };
                 pts.push(json!([x, y]));
             }
+            // one loop in three that follows a closed one continues after the Close without a MoveTo: it starts at
+            // the closed subpath's starting point
+            let cont = li > 0 && closed[li - 1] && rng.chance(1, 3);
+            if cont {
+                pts[0] = loops[li - 1][0].clone();
+            }
+            nomove.push(cont);
             loops.push(Value::Array(pts));
             closed.push(rng.chance(1, 2));
         }
         out.push(json!({
             "id": format!("drv-cov-{}-{}", seed, i), "fam": "cov", "w": w, "h": h,
-            "loops": loops, "closed": closed,
+            "loops": loops, "closed": closed, "nomove": nomove,
             "rule": if rng.chance(1, 2) { "EvenOdd" } else { "NonZero" },
             "aa": !rng.chance(1, 4),
             "route": if rng.chance(1, 8) { "clip" } else { "fill" },
